@@ -451,7 +451,8 @@ impl MixedColBuffer {
                 RawVal::Str(s) => string_col.push(&s),
                 RawVal::Int(i) => string_col.push(&i.to_string()),
                 RawVal::Float(f) => string_col.push(&f.to_string()),
-                RawVal::Null => {}
+                // Keep null rows (they are masked by `present`), otherwise later values shift.
+                RawVal::Null => string_col.push(""),
             }
         }
         string_col.finalize(name, present)
